@@ -443,8 +443,10 @@ class ActionKinds:
         d = dotted(e.func)
         args = [ev(a.value if isinstance(a, ast.Starred) else a) for a in e.args]
         kw = {k.arg: ev(k.value) for k in e.keywords}
-        if d == 'getattr' and len(e.args) >= 2 and isinstance(e.args[0], ast.Name) and e.args[0].id == pvar and const_str(e.args[1]) is not None:
-            nm = e.args[1].value
+        if d == 'getattr' and len(e.args) >= 2 and isinstance(e.args[0], ast.Name) and e.args[0].id == pvar and (
+                const_str(e.args[1]) is not None or (isinstance(e.args[1], ast.Name) and e.args[1].id in st.get('#strconst', {}))):
+            # the name is a literal, or a parameter of this helper that its caller (or its default) fixes to a literal
+            nm = e.args[1].value if const_str(e.args[1]) is not None else st['#strconst'][e.args[1].id]
             if nm in prod.names:
                 return self.sym_value(prod.rhs[prod.names[nm]])
             if len(e.args) == 3:
@@ -858,6 +860,21 @@ class ActionKinds:
             st[a.vararg.arg] = V(['tuple'], vk(UNK))
         if a.kwarg:
             st[a.kwarg.arg] = V(['dict'], vk(UNK), None)
+        # parameters that this call fixes to a string literal (positionally, by keyword, or by their default): usable as attribute names (`getattr(p, symbol)`)
+        strconst = {}
+        if isinstance(e, ast.Call):
+            off = 0
+            for i_, a_ in enumerate(e.args):
+                if i_ + off < len(params) and const_str(a_) is not None:
+                    strconst[params[i_]] = a_.value
+            for k_ in e.keywords:
+                if k_.arg and const_str(k_.value) is not None:
+                    strconst[k_.arg] = k_.value.value
+            given = set(params[:len(e.args)]) | {k_.arg for k_ in e.keywords if k_.arg}
+            for pn in params:
+                if pn not in given and pn in defaults and const_str(defaults[pn]) is not None:
+                    strconst[pn] = defaults[pn].value
+        st['#strconst'] = strconst
         # predicates defined inside this function (`def is_bare_not(node): return isinstance(node, C) and ...`) narrow like the module-level ones
         self._local_funcs = getattr(self, '_local_funcs', {})
         for s_ in fn.body:
@@ -970,7 +987,7 @@ class ActionKinds:
                 elif k == '#ctor':
                     if a.get(k) == b.get(k):
                         out[k] = a.get(k)
-                elif k == '#const':
+                elif k in ('#const', '#strconst'):
                     ca, cb = a.get(k, {}), b.get(k, {})
                     out[k] = {x: ca[x] for x in ca if x in cb and ca[x] == cb[x]}
                 elif k in a and k in b:
